@@ -2,6 +2,7 @@
 from __future__ import annotations
 
 import ast
+import re
 import os
 from typing import Dict, List, Optional, Set
 
@@ -348,6 +349,38 @@ def rule_MC(run: Run) -> RuleResult:
         res.add("labrea.cache.MemoryCache.exists:presence is membership of the fingerprint (as in get)", ok, f, ex.lineno,
                 f"returns {[ast.unparse(r) for r in rets]}",
                 "get() serves every stored entry, whatever its value; an exists() that looks at the value (None, falsy) reports stored entries as absent and the body re-runs (C02)")
+    # get() decides presence by the key, never by the stored value
+    gfn = mc.methods.get("get")
+    from .interp import Frame, analyse_function
+    gps = analyse_function(Ctx(repo), mc.module, gfn, cls=mc)
+    C_ = "attr:_cache(self)"
+    ok, why = bool(gps), ""
+    saw_ret = saw_fail = False
+    for p in gps:
+        if p.status == "ret":
+            saw_ret = True
+            continue
+        if not (p.exc and "CacheGetFailure" in p.exc[0]):
+            continue
+        saw_fail = True
+        # a KeyError raised while computing the key or indexing the memo dictionary
+        by_key = any(e.kind == "call" and e.failed for e in p.events)
+        for k_, pol in Frame.atoms(p.conds).items():
+            if k_.startswith("cmp:In(") and k_.endswith(f",{C_})") and pol is False:
+                by_key = True
+            elif C_ in k_ and (f"call:get({C_}" in k_ or f"getitem({C_}" in k_ or f"call:pop({C_}" in k_):
+                # the failure is decided by looking at the stored value: fine only against a private sentinel default
+                m_ = re.match(r"cmp:Is\(call:get\(" + re.escape(C_) + r",(.+),(global<[^>]+>|new:[^,()]+(?:\([^()]*\))?)\),(.+)\)$", k_)
+                if m_ and m_.group(2) == m_.group(3) and pol is True:
+                    by_key = True
+                else:
+                    ok, why = False, f"reports a miss when the stored value satisfies `{k_[:90]}`: a stored None/falsy value is then never served"
+        if not by_key and ok:
+            ok, why = False, f"raises CacheGetFailure on a path that did not establish the key is absent ({[c[0] for c in p.conds]})"
+    ok = ok and saw_ret and saw_fail
+    res.add("labrea.cache.MemoryCache.get:a miss is decided by the key, not by the stored value", ok, f, gfn.lineno,
+            why or "KeyError of self._cache[fingerprint] / membership test",
+            "exists() and get() must agree on every stored entry, whatever its value: otherwise the body (and its effects) re-run on every request (C02, C17)")
     # who may write the memo dictionary
     writers = []
     for m in repo.modules.values():
@@ -632,14 +665,19 @@ def rule_RK(run: Run) -> RuleResult:
         fn = opt.methods.get(op)
         if fn is None:
             raise AnalysisError(f"Option.{op} not found")
-        # names bound to the looked-up value
-        vnames = set()
-        for n in astu.walk_no_nested(fn):
-            if isinstance(n, ast.Assign) and isinstance(n.value, ast.Call) and astu.short_name(n.value) in ("get_dotted_key", "resolve"):
-                for t in n.targets:
-                    if isinstance(t, ast.Name):
-                        vnames.add(t.id)
-        inspected = _kinds_inspected(run, opt, fn, vnames)
+        # names bound to the looked-up value, in the operation itself or in a private method it delegates to
+        inspected: Set[str] = set()
+        for mn, mfn in astu.reachable_self_methods(opt, [op]).items():
+            if mn in ("keys", "explain", "evaluate", "validate") and mn != op:
+                continue
+            vnames = set()
+            for n in astu.walk_no_nested(mfn):
+                if isinstance(n, ast.Assign) and isinstance(n.value, ast.Call) and astu.short_name(n.value) in ("get_dotted_key", "resolve"):
+                    for t in n.targets:
+                        if isinstance(t, ast.Name):
+                            vnames.add(t.id)
+            if vnames:
+                inspected |= _kinds_inspected(run, opt, mfn, vnames)
         for k in sorted(followed):
             eq = _KIND_EQ.get(k, {k})
             ok = bool(inspected & eq)
@@ -649,8 +687,8 @@ def rule_RK(run: Run) -> RuleResult:
     # that recognises a kind must actually inspect it: strings through Template,
     # containers by recursing into their elements (any nesting depth)
     helpers = []
-    for op in ("keys", "explain"):
-        fn = opt.methods[op]
+    for op, fn in [(op_, mfn) for op_ in ("keys", "explain") for mn, mfn in astu.reachable_self_methods(opt, [op_]).items()
+                   if mn == op_ or mn not in ("keys", "explain", "evaluate", "validate")]:
         for x in astu.calls_in(fn):
             if isinstance(x.func, ast.Attribute) and isinstance(x.func.value, ast.Name) and x.func.value.id in ("self", "cls", "Option"):
                 r = opt.find_method(x.func.attr)
